@@ -159,14 +159,9 @@ int a_que_setz(a_que *ctx, a_size siz, void (*dtor)(void *))
         if (!siz) { siz = 1; }
         if (siz > ctx->siz_)
         {
-            a_size cur = ctx->cur_;
-            a_list **ptr = ctx->ptr_;
-            for (; cur; ++ptr, --cur)
-            {
-                void *const p = a_alloc(*ptr, sizeof(a_list) + siz);
-                if (A_UNLIKELY(!p)) { return A_OMEMORY; }
-                *ptr = (a_list *)p;
-            }
+            /* recycled nodes are too small now: release them, nodes are allocated on demand.
+               (growing them in place could fail after the contents had been dropped) */
+            while (ctx->cur_) { a_alloc(ctx->ptr_[--ctx->cur_], 0); }
         }
         ctx->siz_ = siz;
     }
